@@ -50,7 +50,7 @@ def check_typed(fx, rep, rule, impl):
         A.one(rep, rule, impl + "::remap_throwable/remap_frame", [])
         return
     b = fx.bodies[p]
-    sy = S.Sym(fx, opaque=lambda q: q in (rt, rf), inline_mut=True)
+    sy = S.Sym(fx, opaque=lambda q: q in (rt, rf), inline_mut=True, thread_places=True)
     try:
         res = sy.eval_body(b)
     except S.Undecidable as e:
